@@ -5,6 +5,7 @@
 #include "battery.hpp"
 #include "canon.hpp"
 #include "s1.hpp"
+#include "sp.hpp"
 
 #include <dirent.h>
 
@@ -20,6 +21,9 @@ static int g_bound = 1;
 static bool g_wide = true;
 static int g_file_level = 1; // 0: never, 1: all-defaults instance only, 2: every execution with <= g_file_dev deviations
 static int g_file_dev = 1;
+// set in fork-per-execution mode: called as soon as the reader has accepted the synthesised block
+static std::function<void(const std::vector<Point>&)> g_after_get;
+static int g_chain_bound = 0; // deviation bound for the varying member of a linked chain
 // per-unit distinct counters (units are disjoint by type+version, so per-unit counts add up)
 static std::unordered_set<uint64_t> g_unit_nontrivial, g_unit_outcomes, g_unit_file_outcomes;
 
@@ -500,6 +504,30 @@ static void oracle_c07_file(const std::string& type, const VerCfg& vc, const Scr
 	c07_file_checks(b.file, type + ":" + game_of(vc), vf::strf("%s (%s)", type.c_str(), vc.name), case_json(type, vc, s), st, s.empty());
 }
 
+// ---------- linked chains (corpus SP) ----------
+static J chain_json(const sp::Chain& ch, const VerCfg& vc, size_t vary, const Script& s) {
+	return J::obj().set("chain", ch.name).set("version", vc.name).set("vary", (long long) vary).set("member", ch.types[vary]).set("wide", g_wide).set("script", script_json(s));
+}
+
+static std::vector<Point> run_chain(const sp::Chain& ch, const VerCfg& vc, size_t vary, const Script& s, Stats& st) {
+	J cj = chain_json(ch, vc, vary, s);
+	vf::set_inflight(cj.dump());
+	sp::Built b = sp::build(ch, vc, vary, s, g_wide);
+	if (g_after_get) g_after_get(b.points);
+	if (b.capped) { st.add("capped_executions"); return b.points; }
+	if (!b.ok) { st.add("file_not_built"); return b.points; }
+	st.add("evaluations");
+	st.add("chain_files");
+	if (!s.empty() || b.populated) g_unit_nontrivial.insert(b.tape_hash);
+	if (st.samples.empty() && s.size() == 1) st.sample(J(cj).set("file_bytes", (long long) b.file.size()));
+	std::string keybase = std::string("chain:") + ch.name + ":" + ch.types[vary] + ":" + game_of(vc);
+	std::string what = vf::strf("chain %s (%s), member %s varied", ch.name, vc.name, ch.types[vary]);
+	if (A.prop == "C01") c01_file_checks(b.file, keybase, what, cj, st);
+	else if (A.prop == "C02") c02_file_checks(b.file, keybase, what, cj, st);
+	else if (A.prop == "C07") { st.add("files_checked"); c07_file_checks(b.file, keybase, what, cj, st, s.empty()); }
+	return b.points;
+}
+
 // ---------- sample files (corpus R) ----------
 static std::vector<std::string> g_rfiles;
 
@@ -541,8 +569,6 @@ static void run_rfile(const std::string& rel, Stats& st) {
 }
 
 // ---------- one execution ----------
-// set in fork-per-execution mode: called as soon as the reader has accepted the synthesised block
-static std::function<void(const std::vector<Point>&)> g_after_get;
 
 static std::vector<Point> run_one(const std::string& type, const VerCfg& vc, const Script& s, Stats& st, bool replay = false) {
 	vf::set_inflight(case_json(type, vc, s).dump());
@@ -585,7 +611,7 @@ static std::vector<Point> run_one(const std::string& type, const VerCfg& vc, con
 // Fork-per-execution mode for units in which a synthesised input has already killed a worker
 // (sanitizer fault inside the reader = "input not accepted", DESIGN section 5 e).  The child runs
 // the execution and its oracle, then sends the choice points and its protocol lines back.
-static std::vector<Point> run_one_isolated(const std::string& type, const VerCfg& vc, const Script& s, Stats& st) {
+static std::vector<Point> run_isolated_generic(const std::function<std::vector<Point>(Stats&)>& body, Stats& st, const std::string& keybase, const J& cj) {
 	int fd[2];
 	if (pipe(fd) != 0) vf::fatal("pipe failed");
 	fflush(stdout);
@@ -606,7 +632,7 @@ static std::vector<Point> run_one_isolated(const std::string& type, const VerCfg
 			fflush(f);
 			sent = true;
 		};
-		std::vector<Point> pts = run_one(type, vc, s, cs);
+		std::vector<Point> pts = body(cs);
 		if (!sent) g_after_get(pts); // capped / rejected by exception: still report the points seen
 		cs.add("distinct_nontrivial", (long long) g_unit_nontrivial.size());
 		cs.add("distinct_outcomes", (long long) g_unit_outcomes.size());
@@ -648,10 +674,8 @@ static std::vector<Point> run_one_isolated(const std::string& type, const VerCfg
 			// the reader accepted the block; the fault happened while writing it back or re-reading the library's own output
 			st.add("faults_after_accept");
 			if (A.prop == "C01")
-				st.violation(type + ":" + game_of(vc) + ":fault-after-accept:" + ci.key(),
-							 vf::strf("%s (%s): the block was accepted, then writing it back or reloading the written file faulted: %s in %s", type.c_str(), vc.name,
-									  ci.cls.c_str(), ci.frame.c_str()),
-							 case_json(type, vc, s));
+				st.violation(keybase + ":fault-after-accept:" + ci.key(),
+							 vf::strf("%s: the input was accepted, then writing it back or reloading the written file faulted: %s in %s", keybase.c_str(), ci.cls.c_str(), ci.frame.c_str()), cj);
 		}
 		else {
 			st.add("rejected_by_fault");
@@ -660,6 +684,10 @@ static std::vector<Point> run_one_isolated(const std::string& type, const VerCfg
 	}
 	st.add("isolated_executions");
 	return pts;
+}
+
+static std::vector<Point> run_one_isolated(const std::string& type, const VerCfg& vc, const Script& s, Stats& st) {
+	return run_isolated_generic([&](Stats& cs) { return run_one(type, vc, s, cs); }, st, type + ":" + game_of(vc), case_json(type, vc, s));
 }
 
 static const VerCfg* find_ver(const std::string& n) {
@@ -678,6 +706,7 @@ int main(int argc, char** argv) {
 	g_wide = A.geti("wide", 1) != 0;
 	g_file_level = (int) A.geti("filelevel", thorough ? 2 : 1);
 	g_file_dev = (int) A.geti("filedev", 1);
+	g_chain_bound = (int) A.geti("chainbound", thorough ? 1 : 0);
 	if (A.prop == "C07") {
 		g_bound = (int) A.geti("bound", thorough ? 2 : 1);
 		g_file_dev = (int) A.geti("filedev", thorough ? 2 : 1);
@@ -697,6 +726,17 @@ int main(int argc, char** argv) {
 		const J& c = r["case"];
 		g_hists = all_histories(3);
 		if (c.has("history")) g_hists = {c["history"].str()};
+		if (c.has("chain")) {
+			g_wide = c["wide"].t == J::BOOL ? c["wide"].b : true;
+			for (auto& ch : sp::chains())
+				if (c["chain"].str() == ch.name) {
+					auto cv = sp::find_ver(c["version"].str());
+					if (!cv) vf::fatal("replay: unknown version");
+					run_chain(ch, *cv, (size_t) c["vary"].i64(), script_from_json(c["script"]), top);
+				}
+			vf::finish(top);
+			return 0;
+		}
 		if (c.has("file")) {
 			run_rfile(c["file"].str(), top);
 			vf::finish(top);
@@ -713,8 +753,17 @@ int main(int argc, char** argv) {
 		return 0;
 	}
 
-	struct Unit { size_t t, v; long rfile; };
+	struct Unit { size_t t, v; long rfile; long chain = -1; const VerCfg* cv = nullptr; size_t vary = 0; };
 	std::vector<Unit> units;
+	const bool file_props = A.prop == "C01" || A.prop == "C02" || A.prop == "C07";
+	if (file_props && !A.has("type") && A.geti("chains", 1)) {
+		for (size_t c = 0; c < sp::chains().size(); c++)
+			for (auto vn : sp::chains()[c].versions) {
+				const VerCfg* cv = sp::find_ver(vn);
+				if (!cv) vf::fatal(std::string("chain version unknown: ") + vn);
+				for (size_t m = 0; m < sp::chains()[c].types.size(); m++) { Unit u{0, 0, -1}; u.chain = (long) c; u.cv = cv; u.vary = m; units.push_back(u); }
+			}
+	}
 	// sample files first (the big ones take longest)
 	if ((A.prop == "C01" || A.prop == "C02" || A.prop == "C07") && !A.has("type") && A.geti("rfiles", 1)) {
 		list_rfiles();
@@ -729,6 +778,26 @@ int main(int argc, char** argv) {
 	pc.rundir = A.rundir;
 	pc.repo = A.repo;
 	auto unit_fn = [&](size_t u, const std::vector<std::string>& skips, long, Stats& st) {
+		if (units[u].chain >= 0) {
+			const sp::Chain& ch = sp::chains()[(size_t) units[u].chain];
+			ExploreCfg cfg;
+			cfg.bound = g_chain_bound;
+			cfg.wide = g_wide;
+			const bool isolated = !skips.empty();
+			g_unit_nontrivial.clear();
+			g_unit_outcomes.clear();
+			g_unit_file_outcomes.clear();
+			bool complete = explore(cfg, [&](const Script& s) {
+				if (!isolated) return run_chain(ch, *units[u].cv, units[u].vary, s, st);
+				return run_isolated_generic([&](Stats& cs) { return run_chain(ch, *units[u].cv, units[u].vary, s, cs); }, st,
+											std::string("chain:") + ch.name + ":" + ch.types[units[u].vary] + ":" + game_of(*units[u].cv), chain_json(ch, *units[u].cv, units[u].vary, s));
+			});
+			if (!complete) st.capped(std::string("deadline inside chain ") + ch.name);
+			st.add("chain_units");
+			st.add("distinct_nontrivial", (long long) g_unit_nontrivial.size());
+			st.add("distinct_file_outcomes", (long long) g_unit_file_outcomes.size());
+			return;
+		}
 		if (units[u].rfile >= 0) {
 			g_unit_nontrivial.clear();
 			g_unit_outcomes.clear();
@@ -756,6 +825,11 @@ int main(int argc, char** argv) {
 		st.add("distinct_file_outcomes", (long long) g_unit_file_outcomes.size());
 	};
 	auto crash_fn = [&](size_t u, const vf::CrashInfo& ci, const std::string& inflight, Stats& parent) -> std::string {
+		if (units[u].chain >= 0) {
+			parent.distinct("fault_sites", ci.key());
+			parent.add("units_isolated");
+			return "ISOLATE";
+		}
 		if (units[u].rfile >= 0) {
 			// a sample file is a valid input: a fault while loading / saving it is a defect, not a rejection
 			J cj = J::obj().set("file", g_rfiles[(size_t) units[u].rfile]);
